@@ -136,11 +136,20 @@ func newFromConfig(ld blobserver.Loader, config jsonconfig.Obj) (storage blobser
 
 func (sto *replicaStorage) Fetch(ctx context.Context, b blob.Ref) (file io.ReadCloser, size uint32, err error) {
 	// TODO: race these? first to respond?
+	var failure error // the first error that isn't just "this replica doesn't have it"
 	for _, replica := range sto.readReplicas {
 		file, size, err = replica.Fetch(ctx, b)
 		if err == nil {
 			return
 		}
+		if failure == nil && !errors.Is(err, os.ErrNotExist) {
+			failure = err
+		}
+	}
+	if failure != nil {
+		// A replica that may hold the blob could not be read: we
+		// don't know that the blob doesn't exist.
+		err = failure
 	}
 	return
 }
